@@ -1380,17 +1380,34 @@ class UnitDatabase(Singleton):
                 if used_unit_for_quantity_type is None:
                     quantity_types_found_to_used_unit[quantity_type] = unit
                 else:
-                    # don't worry about the exponent at this time, just update the unit and the related value.
+                    # update the unit and the related value (considering the exponent of the unit).
                     if c is category_to_unit_and_exp1:
-                        value1 = self.Convert(
-                            quantity_type, unit, used_unit_for_quantity_type, value1
+                        value1 = self._ConvertMatchingExp(
+                            quantity_type, unit, used_unit_for_quantity_type, value1, _exp
                         )
                     else:
-                        value2 = self.Convert(
-                            quantity_type, unit, used_unit_for_quantity_type, value2
+                        value2 = self._ConvertMatchingExp(
+                            quantity_type, unit, used_unit_for_quantity_type, value2, _exp
                         )
                     unit_exp[0] = used_unit_for_quantity_type
         return category_to_unit_and_exp1, category_to_unit_and_exp2, value1, value2
+
+    def _ConvertMatchingExp(
+        self, quantity_type: str, from_unit: str, to_unit: str, value: Any, exp: int
+    ) -> Any:
+        """
+        Converts a value whose unit appears raised to the given exponent (i.e.: a value in cm2
+        converted to m2 must be scaled by the squared conversion factor).
+        """
+        if exp == 1 or from_unit == to_unit:
+            return self.Convert(quantity_type, from_unit, to_unit, value)
+        factor = self.Convert(quantity_type, from_unit, to_unit, 1.0) - self.Convert(
+            quantity_type, from_unit, to_unit, 0.0
+        )
+        scale = factor**exp
+        if isinstance(value, (list, tuple)):
+            return type(value)(v * scale for v in value)
+        return value * scale
 
     def _DoOperationResultingInNewQuantity(
         self,
